@@ -56,6 +56,10 @@ def reply_scenarios(tier):
     # removal of a record that may or may not be the registered one (same owner, independent RDATA)
     S.append(dict(ops=[('auth', 'n1', 'A', None), ('remove', 'n1', 'A', None)], q=[('n1', 'A', 'IN')]))
     S.append(dict(ops=[('auth', 'n1', 'A', None), ('auth', 'n1', 'TXT', None), ('remove', 'n1', 'A', None)], q=[('n1', 'ANY', 'ANY')]))
+    # a record first learned from the network, then registered locally (same owner, independent RDATA: equal or not)
+    S.append(dict(ops=[('cached', 'n1', 'A', None), ('auth', 'n1', 'A', None)], q=[('n1', 'A', 'IN')]))
+    # SRV whose target (n3) is known only from the network while a subdomain of the target (n1 = x.n3) has a registered address
+    S.append(dict(ops=[('auth', 'n6', 'SRV', 'n3'), ('cached', 'n3', 'A', None), ('auth', 'n1', 'A', None)], q=[('n6', 'SRV', 'IN')]))
     S.append(dict(ops=[], q=[('n1', 'ANY', 'ANY')]))
     S.append(dict(ops=[('auth', 'n1', 'A', None)], q=[]))
     if tier == 'thorough':
@@ -419,7 +423,10 @@ def run_task(prog, tid, params, tier):
                     return viol(res, 'answer-unsound', 'an answer is not a matching authoritative record at or below a question name')
             # completeness for exact owners
             for i, rec in enumerate(I.recs):
-                present = z3.Or([z3.BoolVal(False)] + [deep_eq(I, a, rec[4]) for a in answers])
+                # "included": as the record the store identifies it by (owner, class, RDATA) - registering an equal record twice
+                # with another TTL keeps one entry; WHICH TTL an answer may carry is the soundness clause above
+                present = z3.Or([z3.BoolVal(False)] + [z3.And(deep_eq(I, a.f[0], rec[4].f[0]), z3.BoolVal(a.f[1].var == rec[4].f[1].var),
+                                                             deep_eq(I, a.f[3], rec[4].f[3])) for a in answers])
                 if res.ctx.check(z3.And(exact[i], z3.Not(present))):
                     return viol(res, 'answer-missing', 'a matching authoritative record owned by the question name is not in the reply')
             # additional: registered address records owned by the target of an included SRV answer
